@@ -185,3 +185,35 @@ if [ ! -f srvself-sign.cert.pem ]; then
   ss srvself-enc "pinned server.sim enc" keyEncipherment,dataEncipherment,keyAgreement
   openssl x509 -in srvself-sign.cert.pem -noout -subject -issuer -dates
 fi
+# wave 11: (a) an intermediate CA under caA that expired in 2025 (virtual time zero is 2030) and leaves it issued
+#          while valid, whose own validity extends far beyond it; (b) pairs whose common name is server.sim while
+#          their subjectAltName lists another name only
+if [ ! -f caAexp.cert.pem ]; then
+  openssl genpkey -algorithm SM2 -out caAexp.key.pem 2>/dev/null
+  { echo "basicConstraints=critical,CA:TRUE"; echo "keyUsage=critical,keyCertSign,cRLSign"; echo "subjectKeyIdentifier=hash"; echo "authorityKeyIdentifier=keyid"; } > t.ext
+  openssl req -new -key caAexp.key.pem -subj "/C=CN/O=verifsim/CN=verifsim SM2 intermediate (expired 2025)" -out t.csr -sm3 $D
+  openssl x509 -req $V -in t.csr -CA caA.cert.pem -CAkey caA.key.pem -out caAexp.cert.pem -extfile t.ext -not_before 20200101000000Z -not_after 20250101000000Z -sm3 $D -set_serial 9801 2>/dev/null
+  rm -f t.csr t.ext
+  el() { # name CN ku eku san
+    openssl genpkey -algorithm SM2 -out "$1.key.pem" 2>/dev/null
+    { echo "basicConstraints=critical,CA:FALSE"; echo "keyUsage=critical,$3"; echo "extendedKeyUsage=$4"; echo "subjectKeyIdentifier=hash"; echo "authorityKeyIdentifier=keyid"; [ -z "$5" ] || echo "subjectAltName=DNS:$5"; } > t.ext
+    openssl req -new -key "$1.key.pem" -subj "/C=CN/O=verifsim/CN=$2" -out t.csr -sm3 $D
+    openssl x509 -req $V -in t.csr -CA caAexp.cert.pem -CAkey caAexp.key.pem -out "$1.cert.pem" -extfile t.ext -not_before 20210101000000Z -not_after $VA -sm3 $D -set_serial $6 2>/dev/null
+    rm -f t.csr t.ext
+  }
+  el cliexpca "client under expired intermediate" digitalSignature clientAuth "" 9802
+  el srvexpca-sign "server.sim sign" digitalSignature serverAuth server.sim 9803
+  el srvexpca-enc "server.sim enc" keyEncipherment,dataEncipherment,keyAgreement serverAuth server.sim 9804
+  openssl x509 -in caAexp.cert.pem -noout -dates; openssl x509 -in cliexpca.cert.pem -noout -dates -issuer
+fi
+if [ ! -f srvcnsan-sign.cert.pem ]; then
+  mk srvcnsan-sign "server.sim" digitalSignature serverAuth mallory.sim
+  mk srvcnsan-enc  "server.sim" keyEncipherment,dataEncipherment,keyAgreement serverAuth mallory.sim
+  openssl genpkey -algorithm RSA -pkeyopt rsa_keygen_bits:2048 -out tlscnsan.key.pem 2>/dev/null
+  { echo "basicConstraints=critical,CA:FALSE"; echo "keyUsage=critical,digitalSignature,keyEncipherment"; echo "extendedKeyUsage=serverAuth"; echo "subjectKeyIdentifier=hash"; echo "authorityKeyIdentifier=keyid"; echo "subjectAltName=DNS:mallory.sim"; } > t.ext
+  openssl req -new -key tlscnsan.key.pem -subj "/C=CN/O=verifsim/CN=server.sim" -out t.csr -sha256
+  openssl x509 -req -in t.csr -CA rsaCA.cert.pem -CAkey rsaCA.key.pem -out tlscnsan.cert.pem -extfile t.ext -not_before $VB -not_after $VA -sha256 -set_serial 9901 2>/dev/null
+  rm -f t.csr t.ext
+  openssl x509 -in tlscnsan.cert.pem -noout -subject -ext subjectAltName | tr '\n' ' '; echo
+  openssl x509 -in srvcnsan-sign.cert.pem -noout -subject -ext subjectAltName | tr '\n' ' '; echo
+fi
